@@ -302,6 +302,24 @@ REAL_TIMEOUT_GUARD_MS = 25000
 STEP_CAP_DEFAULT = 400
 
 
+_STAT_PROBE = None
+
+
+def _rlimit_count():
+    """z3's resource counter (it belongs to the context, every solver object reports it).  Read from a
+    solver object that never checks anything: the statistics of a solver that *has* checked carry a
+    "time" entry only when the measured wall time is not zero, so asking the real object would make
+    the allocator state - which z3's later answers depend on - a function of the wall clock."""
+    global _STAT_PROBE
+    if _STAT_PROBE is None:
+        _STAT_PROBE = _z3.Solver()
+    st = _STAT_PROBE.statistics()
+    for key in st.keys():
+        if key == "rlimit count":
+            return st.get_key_value(key)
+    return None
+
+
 def _val(model, var):
     """python value of ``var`` in ``model`` (None when the model says nothing)."""
     v = model.eval(var, model_completion=False)
@@ -386,7 +404,10 @@ class SimSolver:
         return self._real.assertions()
 
     def statistics(self):
-        return self._real.statistics()
+        """what the library sees (it only prints them, in debug mode): a stub.  The real statistics
+        carry wall-clock readings - even the *number* of entries depends on them, see _rlimit_count."""
+        n = _rlimit_count()
+        return [("rlimit count", n if n is not None else 0)]
 
     def param_descrs(self):
         return self._real.param_descrs()
@@ -443,12 +464,7 @@ class SimSolver:
                 env.real_timeout_guard += 1
                 env.rl_used = env.rl_budget  # give the run up: every later check answers unknown
         try:
-            st = real.statistics()
-            now = None
-            for key in st.keys():
-                if key == "rlimit count":
-                    now = st.get_key_value(key)
-                    break
+            now = _rlimit_count()
             if now is not None:
                 if env.rl_last is not None and now >= env.rl_last:
                     env.rl_used += now - env.rl_last
